@@ -45,8 +45,8 @@ def gen_ops(ctx):
     pairs, kinds, details = [], [], []
     for i in range(n):
         if i % 6 == 5:   # a mask handed down a chain of types: reuse of a bit that only means something at the bottom
-            s = L.Gen(rng).schema(ntypes=rng.randrange(0, 4), nfuns=rng.randrange(0, 2), chain=True)
-            k = "bit-reuse-deep"
+            s = L.Gen(rng).schema(ntypes=rng.randrange(0, 4), nfuns=rng.randrange(0, 2), chain=True, shared=rng.random() < 0.3)
+            k = rng.choice(["bit-reuse-deep", "bit-reuse-deep", "bit-reuse-targ"])
         else:
             s = L.Gen(rng).schema()
             k = L.UNSAFE_KINDS[i % len(L.UNSAFE_KINDS)] if i < 4 * len(L.UNSAFE_KINDS) else rng.choice(L.UNSAFE_KINDS)
@@ -87,7 +87,7 @@ def sig_for(kind, data, out):
     if out == "crash":
         return "C30:F3:args-index-panic" if kind == "rm-targ" else f"C30:crash:{kind}"
     if out == "accept":
-        if kind == "ty-rep" or (kind in ("bare-to-union", "bit-reuse-deep") and detail == ["rep"]):
+        if kind == "ty-rep" or (kind in ("bare-to-union", "bit-reuse-deep", "bit-reuse-targ") and detail == ["rep"]):
             return "C30:repeat-contents"
         if kind in ("ty-bare", "bare-to-union"):
             return "C30:F2:bare-flag"
